@@ -585,7 +585,7 @@ pub fn tree_case(run: &Run, src: &mut Src, depth: usize) -> CaseOut {
 	let bare_tail = src.chance(1, 3);
 	let comments = src.chance(1, 2);
 	let code = {
-		let mut tr = RandTrivia { src, comments, counter: 0, emitted: vec![] };
+		let mut tr = RandTrivia { src, comments, counter: 0, emitted: vec![], items_only: false };
 		let mut p = Printer::new(&mut tr);
 		p.trailing_commas = trailing;
 		p.bare_tail = bare_tail;
